@@ -845,7 +845,21 @@ public:
             r = Val(64, alloc(s, a[0].c, "heap", true)->base);
             return true;
         };
-        ext["strlen"] = [this](State& s, CallBase&, std::vector<Val>& a, Val& r) { r = Val(64, readCStr(s, a[0].c).size()); return true; };
+        ext["strlen"] = [this](State& s, CallBase&, std::vector<Val>& a, Val& r) {
+            uint64_t n = 0;
+            for (;; n++) {
+                Val b = load(s, Val(64, a[0].c + n), 8);
+                if (!b.sym) { if (!b.c) break; continue; }
+                z3::expr z = b.e == ZC.bv_val(0, 8);
+                if (!maybe(s, z)) continue;              // cannot be the terminator
+                if (!maybe(s, !z)) break;                // must be the terminator
+                throw EngineError("strlen over a byte that may or may not be zero");
+            }
+            r = Val(64, n); return true; };
+        ext["dlopen"] = [](State&, CallBase&, std::vector<Val>&, Val& r) { r = Val(64, 0); return true; };   // no shared library can be loaded in the model
+        ext["dlsym"] = [](State&, CallBase&, std::vector<Val>&, Val& r) { r = Val(64, 0); return true; };
+        ext["dlclose"] = [](State&, CallBase&, std::vector<Val>&, Val& r) { r = Val(32, 0); return true; };
+        ext["dlerror"] = [this](State& s, CallBase&, std::vector<Val>&, Val& r) { static const char msg[] = "dlopen: not available"; auto o = alloc(s, sizeof msg, "dlerror", true); for (size_t i = 0; i < sizeof msg; i++) store(s, Val(64, o->base + i), Val(8, (uint8_t)msg[i])); r = Val(64, o->base); return true; };
         ext["memcmp"] = ext["bcmp"] = [this](State& s, CallBase&, std::vector<Val>& a, Val& r) {
             if (a[2].sym) throw EngineError("symbolic memcmp len");
             for (uint64_t i = 0; i < a[2].c; i++) {
@@ -873,6 +887,7 @@ public:
             else if (f == "%u") n = snprintf(buf, sizeof buf, "%u", (unsigned)a[3].c);
             else if (f == "%ld") n = snprintf(buf, sizeof buf, "%ld", (long)a[3].c);
             else if (f == "%lu") n = snprintf(buf, sizeof buf, "%lu", (unsigned long)a[3].c);
+            else if (f.size() >= 2 && f[0] == '%' && strchr("gfeG", f.back()) && f.find('%', 1) == std::string::npos && f.find('*') == std::string::npos) { double d; memcpy(&d, &a[3].c, 8); if (a[3].sym) throw EngineError("snprintf of a symbolic double"); n = snprintf(buf, sizeof buf, f.c_str(), d); }
             else throw EngineError("snprintf format " + f);
             uint64_t cap = a[1].c;
             for (uint64_t i = 0; i < cap; i++) { char c = (i < (uint64_t)n && i + 1 < cap) ? buf[i] : 0; store(s, Val(64, a[0].c + i), Val(8, (uint8_t)c)); if (!c) break; }
@@ -1500,7 +1515,7 @@ public:
             case Instruction::ExtractValue: {
                 auto& ev = cast<ExtractValueInst>(I);
                 Val a = op(s, ev.getAggregateOperand());
-                for (unsigned i : ev.indices()) { Val t = a.agg->at(i); a = t; }
+                for (unsigned i : ev.indices()) { if (!a.agg) throw EngineError("extractvalue from a non-aggregate value"); Val t = a.agg->at(i); a = t; }
                 setReg(s, &I, a);
                 break;
             }
